@@ -5,8 +5,17 @@ N in 0..=4 (and out-of-range indices for remove / swap_remove), checking the dro
 import os, re, shutil
 from common import *
 
-STANDIN_PROPS = ('C04', 'C05', 'C09', 'C15', 'C16')
-BOUND = 'C15: 4 MiB of u8 on a 256 KiB-stack thread, seven boxed constructors / conversions; otherwise N in 0..=4; every call index 0..=N of each closure/Clone/next; every single panicking element x every (front, back) iterator position x skip counts {0,1,2,N,usize::MAX}; idx in {N, N+1, usize::MAX} for remove/swap_remove'
+STANDIN_PROPS = ('C02', 'C04', 'C05', 'C09', 'C10', 'C11', 'C14', 'C15', 'C16', 'C20')
+BOUND_UNWIND = 'N in 0..=4; every call index 0..=N of each closure/Clone/next; every single panicking element x every (front, back) iterator position x skip counts {0,1,2,N,usize::MAX}; idx in {N, N+1, usize::MAX} for remove/swap_remove'
+BOUNDS = {
+    'C02': 'addresses of zero-extent views (CBMC does not model the address of a zero-sized place): element types (), an 8-aligned ZST, [u8; 0], and u32 with N = 0; N in {0, 2, 3}; thirteen view / reinterpretation forms',
+    'C10': 'addresses and counts of from_chunks / into_chunks (shared and mutable) over zero-extent chunks: (), 8-aligned ZST, u32 with N = 0; three chunks',
+    'C11': 'addresses of by-reference flatten / unflatten (& and &mut) for zero-extent arrays: () 2x3, 8-aligned ZST 3x2, u32 2x0, u8 3x0',
+    'C14': 'the chunked strategy on the real code (N > 1024 is beyond CBMC): N in {1024, 1025, 2047, 2048, 2049, 3000, 4096}; every precision 0..=2N+2 for 1025 and 2049, otherwise boundary precisions (0..3, N, N+1, 2N-1..2N+7, every multiple of 2048 +-2); both cases; built without and with feature faster-hex',
+    'C15': '4 MiB of u8 on a 256 KiB-stack thread, seven boxed constructors / conversions; ' + BOUND_UNWIND,
+    'C20': 'a panic in element expression k of arr!/box_arr! list forms with 1, 3, 4 elements (k in 0..=4); box_arr![x; N] for N in {0, 1, 3, 4} with a Clone-but-not-Copy element and a panic in clone k',
+}
+BOUND = BOUND_UNWIND
 
 
 def run_standin(prop):
@@ -18,14 +27,31 @@ def run_standin(prop):
     copy_repo(srepo)
     sdir = os.path.join(scratch, 'standin')
     shutil.copytree(os.path.join(VERIF, 'standin'), sdir)
-    toml = open(os.path.join(sdir, 'Cargo.toml.in')).read().replace('@REPO@', srepo)
-    open(os.path.join(sdir, 'Cargo.toml'), 'w').write(toml)
-    rc, out, err, wall = run(['cargo', 'run', '--offline', '-q'], cwd=sdir, env={'CARGO_TARGET_DIR': os.path.join(scratch, 'target-standin')}, timeout=900)
-    m = re.search(r'^CASES (\d+) FAILED (\d+)', out, re.M)
-    if not m:
-        tail = [l for l in (err or out).splitlines() if l.startswith('error')][:5]
-        return {'error': 'stand-in did not build or run (rc=%s): %s' % (rc, ' | '.join(tail) or (err or out)[-300:]), 'wall_s': wall}
-    fails = [l for l in out.splitlines() if l.startswith('FAIL ')]
+    fails, cases, wall_total = [], 0, 0.0
+    feature_sets = [['alloc']] + ([['alloc', 'faster-hex']] if prop == 'C14' else [])
+    for fs in feature_sets:
+        toml = open(os.path.join(sdir, 'Cargo.toml.in')).read().replace('@REPO@', srepo).replace('features = ["alloc"]', 'features = [%s]' % ', '.join('"%s"' % f for f in fs))
+        open(os.path.join(sdir, 'Cargo.toml'), 'w').write(toml)
+        markf = os.path.join(scratch, 'current_case.txt')
+        open(markf, 'w').write('')
+        env = {'CARGO_TARGET_DIR': os.path.join(scratch, 'target-standin'), 'STANDIN_MARK': markf}
+        only = {'C02': 'C02', 'C10': 'C10', 'C11': 'C11', 'C14': 'C14', 'C20': 'C20'}.get(prop)
+        if only:
+            env['STANDIN_ONLY'] = only
+        rc, out, err, wall = run(['cargo', 'run', '--offline', '-q'], cwd=sdir, env=env, timeout=900)
+        wall_total += wall
+        m = re.search(r'^CASES (\d+) FAILED (\d+)', out, re.M)
+        if not m:
+            tail = [l for l in (err or out).splitlines() if l.startswith('error')][:5]
+            last = open(markf).read().strip()
+            if not tail and last and (rc < 0 or rc >= 128 or 'SIG' in (err or '') or 'panic in a destructor' in (err or '') or 'abort' in (err or '').lower()):
+                # the native run died inside a case (signal / abort): on the unchanged tree every case completes, so the
+                # case that was running is the failing input
+                fails.append('FAIL %s : the native run died inside this case (exit status %s): %s' % (last, rc, ' '.join((err or '').split())[-200:]))
+                continue
+            return {'error': 'stand-in did not build or run (rc=%s, features %s): %s' % (rc, ','.join(fs), ' | '.join(tail) or (err or out)[-300:]), 'wall_s': wall_total}
+        cases += int(m.group(1))
+        fl = [l for l in out.splitlines() if l.startswith('FAIL ')]
+        fails += [l + (' [features %s]' % ','.join(fs) if len(feature_sets) > 1 else '') for l in fl]
     here = [l for l in fails if 'property=%s ' % prop in l]
-    counted = len([1 for _ in here])
-    return {'cases': int(m.group(1)), 'failed_total': int(m.group(2)), 'failed_here': here, 'wall_s': round(wall, 1), 'bound': BOUND}
+    return {'cases': cases, 'failed_total': len(fails), 'failed_here': here, 'wall_s': round(wall_total, 1), 'bound': BOUNDS.get(prop, BOUND)}
